@@ -108,6 +108,27 @@ def check_registry(s):
     return None
 
 
+def check_task_collections(names):
+    """the list and dict forms of the EvaluationTask constructor: one member per member name, in the order given; a dict keyed by the members"""
+    from perception_eval.common.evaluation_task import EvaluationTask, set_task_lists, set_task_dict
+    want = [m for n in names for m in EvaluationTask if m.value == n]
+    try:
+        got = set_task_lists(list(names))
+    except Exception as ex:
+        return f"set_task_lists({names!r}) raised {type(ex).__name__}: {ex}"
+    if len(got) != len(want) or any(a is not b for a, b in zip(got, want)):
+        return f"set_task_lists({names!r}) gives {got!r}, the members named in that order are {want!r}"
+    data = {n: dict(i=i) for i, n in enumerate(names)}
+    try:
+        d = set_task_dict(dict(data))
+    except Exception as ex:
+        return f"set_task_dict({sorted(data)!r}) raised {type(ex).__name__}: {ex}"
+    members = {m for m in want}
+    if set(d.keys()) != members or any(d[m] is not data[m.value] for m in members):
+        return f"set_task_dict({sorted(data)!r}) gives keys {list(d.keys())!r}"
+    return None
+
+
 def candidates(fname, item, seed):
     rnd = random.Random(seed)
     out = [s for _, s in model_strings(item.get("model"))]
@@ -137,6 +158,16 @@ def search(item, seed):
             if why:
                 return dict(function=fname, input=s, observed=why)
         return None
+    if fname.startswith("set_task_lists") or fname.startswith("set_task_dict") or item["name"] == "bounded-native-search":
+        from perception_eval.common.evaluation_task import EvaluationTask
+        vals = [m.value for m in EvaluationTask]
+        rnd_ = random.Random(seed)
+        for names in [[v] for v in vals] + [list(reversed(vals)), vals[:3] + ["bogus"] + vals[:1]] + [rnd_.sample(vals, 3) + [rnd_.choice(vals)] for _ in range(20)]:
+            why = check_task_collections(names)
+            if why:
+                return dict(function="set_task_lists/set_task_dict", input=names, observed=why)
+        if not item["name"] == "bounded-native-search":
+            return None
     if fname.startswith("TransformDict.transform") or item["name"] == "bounded-native-search":
         from perception_eval.common.schema import FrameID
         for m in FrameID:
@@ -156,6 +187,9 @@ def search(item, seed):
 
 def replay(payload):
     f, s = payload["function"], payload["input"]
+    if f == "set_task_lists/set_task_dict":
+        why = check_task_collections(s)
+        return (why is None, why or "ok")
     if f == "TransformDict.transform":
         why = check_registry(s)
         return (why is None, why or "ok")
